@@ -34,6 +34,30 @@ CLAIMS = {
             "state unchanged and that the raised class is one the spec allows.", "5 C13"),
 }
 
+QUERY_NOTE = ("Trusted base: TLC; the harness normalisation of answers (node objects -> model ids by identity); "
+              "states are built through the public API. Bounds as recorded in the evidence file.")
+CLAIMS.update({
+    "C06": ("TLC checks the traversal laws (permutation, parent-before-children, level order and direction, visit = "
+            "iterator, skip/stop semantics) on every ordered forest in the bound (MC_Shapes); for every shape, start node, "
+            "method, add_self and every single skip/stop node and signal form (plus all 3^n assignments on small trees) "
+            "the real iterator/visit() run is logged (visited ids, return value) and compared by TLC with the operators.",
+            "5 C06"),
+    "C09": ("For every labelled forest with clones in the bound (MC_Core states), every start node, add_self, pattern / "
+            "predicate and limit k, and every index-access key kind, the real answer (or exception class) is compared by "
+            "TLC with Search/FindFirst/GetItem; the match set of a pattern is computed by the harness with re.fullmatch.",
+            "5 C09"),
+    "C10": ("TLC checks mutual-consistency laws of the relationship operators on every ordered forest in the bound; for "
+            "every shape (also with all data comparing equal, and labelled forests with clones) every node and ordered "
+            "pair is queried through all relationship methods and compared by TLC.", "5 C10"),
+    "C15": ("Every ordered forest x kind assignment in the bound (MC_Shapes with K=2) is built as a TypedTree; all "
+            "kind-aware queries for every node, kind (present, absent, ANY_KIND) and any_kind flag are compared by TLC "
+            "with 'filter the child/sibling list by kind'; TLC checks any_kind = untyped on the spec.", "5 C15"),
+    "C16": ("TLC checks on every shape that the prefix sequences determine the shape (ShapeFrom o Prefix = Shape); the "
+            "real format() output for every shape, start node, add_self, title mode, decodable connector style (table + "
+            "custom 4/6-tuples + list), repr form and join string is tokenised into segment indexes and compared by TLC.",
+            "5 C16"),
+})
+QUERY = {"C06", "C09", "C10", "C15", "C16"}
 TECHNIQUE = "TLA+ spec + TLC model checking; spec->code transition replay and code->spec trace validation by TLC"
 
 
@@ -48,7 +72,7 @@ def main():
             "replay_cmd_template": f"./check {pid} --replay {{path}}",
             "engine": "tlc-conformance",
             "level_claimed": {"category": "model_checking", "text": text, "design_ref": f"DESIGN.md section {ref}"},
-            "level_note": CORE_NOTE,
+            "level_note": QUERY_NOTE if pid in QUERY else CORE_NOTE,
             "technique": TECHNIQUE,
         })
     claimed = set(CLAIMS)
